@@ -146,11 +146,15 @@ func runPipeTrace(t *Trace, want string, clk *taskClock) (res *Result) {
 		lits := len(blk.Literals)
 		for _, s := range blk.Sequences {
 			if int(s.LitLen) > lits {
+				// C02 names the parser defect; C07's "everything a parser of
+				// this module emits with WindowSize W is accepted" fails with it
+				dx.fail("C07", "parser_stream_malformed", "", "the parser emitted a sequence with LitLen %d and only %d literals left: no Decoder accepts it", s.LitLen, lits)
 				dx.abort("parser block not well-formed (LitLen)")
 			}
 			lits -= int(s.LitLen)
 			pos += int(s.LitLen)
 			if s.Offset < 1 || int(s.Offset) > dx.ws || int(s.Offset) > pos {
+				dx.fail("C07", "parser_stream_malformed", "", "the parser emitted Offset %d at stream position %d with WindowSize %d: a Decoder with the same window refuses it", s.Offset, pos, dx.ws)
 				dx.abort("parser block not well-formed (Offset)")
 			}
 			pos += int(s.MatchLen)
